@@ -15,7 +15,7 @@ import Glom.Generated.C06Facts
                | {"op":"fill","prefix":p,"n":k,"impl_sizes":[…]}
                | {"op":"set_star","v":b}
                | {"op":"glom","reg":r,"same_as_fresh":b|null,"same_as_first":b,"inputs_unchanged":b,
-                  "same_as_rebuilt":b,"same_as_fresh_registry":b,"spec_graph_unchanged":b,"scope_unchanged":b,
+                  "same_as_rebuilt":b,"same_as_expected":b,"same_as_fresh_registry":b,"spec_graph_unchanged":b,"scope_unchanged":b,
                   "impl_lookups":[[type,op,tag]…],
                   "vars":{"key":k,"base":[[n,v]…],"defaults":[[n,v]…],"ops":[["w",n,v]|["r",n]…],"impl_reads":[v|null…]},
                   "impl_sizes":[…]}
@@ -132,6 +132,7 @@ def stepOp (maxCache : Nat) (a : Acc) (j : Json) : Except String Acc := do
     let freshReg := (j.getObjValAs? Bool "same_as_fresh_registry").toOption.getD true
     let specUnch := (j.getObjValAs? Bool "spec_graph_unchanged").toOption.getD true
     let scopeUnch := (j.getObjValAs? Bool "scope_unchanged").toOption.getD true
+    let expected := (j.getObjValAs? Bool "same_as_expected").toOption.getD true
     -- handler lookups through the memo model of the registry this call used
     let rg := (j.getObjValAs? Nat "reg").toOption.getD 0
     let lookups : List (String × String × String) := match j.getObjVal? "impl_lookups" with
@@ -154,7 +155,7 @@ def stepOp (maxCache : Nat) (a : Acc) (j : Json) : Except String Acc := do
         ({ a with vheaps := (key, heap') :: a.vheaps.filter (·.1 != key), agree := a.agree && reads == impl },
          impl == refVars base defaults ops)
       | .error _ => (a, true)
-    let ok := fresh && first && unch && rebuilt && freshReg && specUnch && scopeUnch && lkOk && varsOk
+    let ok := fresh && first && unch && rebuilt && freshReg && specUnch && scopeUnch && lkOk && varsOk && expected
     -- keep the model's cache in step with the texts this call parsed (observed as new cache keys)
     let newKeys : List (Bool × String) := match j.getObjVal? "impl_new_keys" with
       | .ok (.arr ks) => ks.toList.filterMap (fun e => match e with
@@ -171,6 +172,7 @@ def stepOp (maxCache : Nat) (a : Acc) (j : Json) : Except String Acc := do
          else if !varsOk then s!"the reads of a spec holding Vars(...) differ from those of a fresh variable holder (op {a.nOps})"
          else if !lkOk then s!"a handler differs from the uncached lookup under the registrations in force (op {a.nOps})"
          else if !freshReg then s!"outcome differs from the same call in a freshly built registry with the same registrations (op {a.nOps})"
+         else if !expected then s!"outcome of a fixed (target, spec) pair differs from its documented result (op {a.nOps})"
          else if !rebuilt then s!"outcome differs from the same call on freshly built spec/target objects (op {a.nOps})"
          else if !first then s!"outcome differs from the first time this call was made (op {a.nOps})"
          else s!"outcome differs from the same call in a fresh interpreter (op {a.nOps})") else a.why
